@@ -35,6 +35,7 @@ def generate(st):
         'jitter': sw.random() < 0.6,
         'faulty': sw.random() < 0.4,
         'fault_kinds': sorted(sw.sample(FAULTS, sw.randint(1, len(FAULTS)))),
+        'rounds': 2 if sw.random() < 0.3 else 1,      # the caller refills the SAME container objects and waits again
     }
     leaves = []
 
@@ -102,7 +103,7 @@ def generate(st):
             if kind == 'outer_cancel':
                 faults.append({'kind': kind, 'at': f.choice([0, 0.5, 1, 1.5, 3, 10])})
             else:
-                faults.append({'kind': kind, 'leaf': f.randrange(len(leaves)), 'at': f.choice([0, 0.5, 1, 2, 4])})
+                faults.append({'kind': kind, 'leaf': f.randrange(len(leaves)), 'at': f.choice([0, 0.5, 1, 2, 4]), 'exc': f.choice(['sim', 'sim', 'type', 'key', 'value'])})
     return {'prop': PROP, 'cfg': cfg, 'structure': structure, 'leaves': leaves,
             'faults': faults, 'tape': make_tape(st.sched, 64)}
 
@@ -112,6 +113,21 @@ def generate(st):
 # ----------------------------------------------------------------------------------------------
 class SimLeafError(Exception):
     pass
+
+
+class SimTypeError(TypeError, SimLeafError):
+    pass
+
+
+class SimKeyError(KeyError, SimLeafError):
+    pass
+
+
+class SimValueError(ValueError, SimLeafError):
+    pass
+
+
+LEAF_EXC = {'sim': SimLeafError, 'type': SimTypeError, 'key': SimKeyError, 'value': SimValueError}
 
 
 class _Custom:
@@ -152,6 +168,7 @@ def execute(trace, ctx=None):
     used = _leaf_ids(structure, leaves, [])
     faults = [f for f in trace.get('faults', []) if f['kind'] == 'outer_cancel' or f.get('leaf') in used]
     raise_on = {f['leaf'] for f in faults if f['kind'] == 'leaf_raise'}
+    exc_of = {f['leaf']: LEAF_EXC.get(f.get('exc', 'sim'), SimLeafError) for f in faults if f['kind'] == 'leaf_raise'}
     cancel_at = {}
     for f in faults:
         if f['kind'] == 'leaf_cancel':
@@ -159,6 +176,7 @@ def execute(trace, ctx=None):
     slow = {f['leaf'] for f in faults if f['kind'] == 'slow_leaf'}
     outer = [f['at'] for f in faults if f['kind'] == 'outer_cancel']
     faulty = bool(faults)
+    rounds = 2 if (trace['cfg'].get('rounds') == 2 and not faulty and not any(leaves[i]['kind'] == 'nested' for i in used)) else 1
 
     started = collections.Counter()
     finished = []           # completion order of leaf bodies
@@ -169,8 +187,12 @@ def execute(trace, ctx=None):
     def delay_of(i, key='delay'):
         return 3600 if i in slow else leaves[i].get(key, 0)
 
+    gen = {'n': 1}
+    containers = []         # (object, node) of every mutable container handed to waiter, children before parents
+    node_obj = {}
+
     def result_of(i):
-        return ['r', i]
+        return ['r', i] if gen['n'] == 1 else ['r', i, gen['n']]
 
     def ev(i):
         if i not in done_events:
@@ -182,7 +204,7 @@ def execute(trace, ctx=None):
         ev(i).set()
         if i in raise_on:
             res.fault('leaf_raise')
-            raise SimLeafError(i)
+            raise exc_of.get(i, SimLeafError)(i)
         return result_of(i)
 
     def fut_finish(fut, i):
@@ -192,7 +214,7 @@ def execute(trace, ctx=None):
         ev(i).set()
         if i in raise_on:
             res.fault('leaf_raise')
-            fut.set_exception(SimLeafError(i))
+            fut.set_exception(exc_of.get(i, SimLeafError)(i))
         else:
             fut.set_result(result_of(i))
 
@@ -304,8 +326,33 @@ def execute(trace, ctx=None):
             return make_leaf(node['i'])
         items = [build(x) for x in node['items']]
         if t in ('list', 'tuple'):
-            return _ctor(t)(items)
-        return _ctor(t)(list(zip(node['keys'], items)))
+            o = _ctor(t)(items)
+        else:
+            o = _ctor(t)(list(zip(node['keys'], items)))
+        if t != 'tuple' and recording['on']:
+            containers.append((o, node))
+            node_obj[id(node)] = o
+        return o
+
+    recording = {'on': True}
+
+    def refill(node):
+        """second round: fresh awaitables put into the container objects of the first round (tuples are rebuilt)"""
+        t = node['t']
+        if t == 'plain':
+            return node['v']
+        if t == 'leaf':
+            return make_leaf(node['i'])
+        items = [refill(x) for x in node['items']]
+        if t == 'tuple':
+            return tuple(items)
+        o = node_obj[id(node)]
+        if t == 'list':
+            o[:] = items
+        else:
+            o.clear()
+            o.update(list(zip(node['keys'], items)))
+        return o
 
     def expected(node):
         t = node['t']
@@ -336,7 +383,17 @@ def execute(trace, ctx=None):
                     res.fault('outer_cancel')
                     loop.main_task.cancel()
             loop.call_later(at, do_outer)
-        return await waiter(value)
+        r1 = await waiter(value)
+        if rounds == 2:
+            box['exp1'] = expected(structure)
+            gen['n'] = 2
+            objs.clear(); started.clear(); done_events.clear()
+            recording['on'] = False
+            value2 = refill(structure)
+            r2 = await waiter(value2)
+            res.probe('second-round-on-same-containers')
+            return ('two-rounds', r1, r2)
+        return r1
 
     outcome = loop.run_main(main)
     for i in slow:
@@ -355,6 +412,12 @@ def execute(trace, ctx=None):
     res.sim_time = loop.time()
     kind, val = outcome
     exp = expected(structure) if box.get('built') else None
+    if kind == 'ok' and isinstance(val, tuple) and len(val) == 3 and val[0] == 'two-rounds':
+        if not _same(val[1], box['exp1']):
+            res.violation = {'cls': 'wrong-result', 'msg': 'first round: got %r expected %r' % (val[1], box['exp1']), 'step': None}
+            res.obs = ['two-rounds-first']
+            return res
+        val = val[2]
     n_leaves = len(set(used))
 
     # ---- observations (no set iteration, nothing address dependent) ----
@@ -524,6 +587,8 @@ def shrink_candidates(trace):
         t = copy.deepcopy(trace); t['tape'] = t['tape'][:len(t['tape']) // 2]; yield t
     if trace['cfg'].get('jitter'):
         t = copy.deepcopy(trace); t['cfg']['jitter'] = False; yield t
+    if trace['cfg'].get('rounds') == 2:
+        t = copy.deepcopy(trace); t['cfg']['rounds'] = 1; yield t
     # 3. structural: replace a container by one of its children; drop one item
     paths = []
 
@@ -591,7 +656,7 @@ def size(trace):
         n[0] += (leaf['kind'] != 'sleep') + (leaf.get('delay', 0) != 0)
         if leaf.get('sub') is not None:
             walk(leaf['sub'])
-    return n[0] * 10 + len(trace.get('faults', [])) * 5 + len(trace.get('tape', [])) // 8 + bool(trace['cfg'].get('jitter'))
+    return n[0] * 10 + len(trace.get('faults', [])) * 5 + len(trace.get('tape', [])) // 8 + bool(trace['cfg'].get('jitter')) + 3 * (trace['cfg'].get('rounds') == 2)
 
 
 def signature(trace, violation):
@@ -609,7 +674,7 @@ RULE = ('one case = one (structure, leaf kinds, delays, fault list, scheduler ta
         'non-trivial = at least 2 awaitable leaves and, in a fault configuration, at least one fault that actually fired; '
         'distinct = distinct digest of (trace, observed completion order, result)')
 PROBES = ['later-listed-completes-first', 'tie-broken-by-scheduler', 'timer-fired-late', 'dict-values-complete-out-of-key-order',
-          'nested-depth>=3', 'same-awaitable-twice', 'leaf-depends-on-other-leaf']
+          'nested-depth>=3', 'same-awaitable-twice', 'leaf-depends-on-other-leaf', 'second-round-on-same-containers']
 TIERS = {'quick': {'runs': 40000, 'wallcap': 45}, 'thorough': {'runs': 1500000, 'wallcap': 780}}
 ASSUMPTIONS = ['only legal asyncio schedules are generated: FIFO call_soon, timers never early, seeded lateness and tie order',
                'only the waiter clause of C19 is decided here; the lifting/zipper/as_list clauses are pure and not covered']
